@@ -104,6 +104,7 @@ pub type NewKey = CertifiedKey;
              ensures=[
                  ('class_moves_to_prescribed_phase', '''final(self).resources@.contains_key(ev_class(event))
                     && phase(final(self).resources@[ev_class(event)].key_state) == next_phase(event, phase(old(self).resources@[ev_class(event)].key_state))'''),
+                 ('version_untouched', 'final(self).version == old(self).version'),
                  ('other_classes_untouched', '''forall |n: ResourceClassName| n != ev_class(event) ==>
                     (#[trigger] final(self).resources@.contains_key(n) <==> old(self).resources@.contains_key(n))
                     && (old(self).resources@.contains_key(n) ==> final(self).resources@[n] == old(self).resources@[n])'''),
